@@ -273,9 +273,11 @@ struct InlinePrintAmount<'a, 'ctx>(&'a Amount<'ctx>);
 
 impl Display for InlinePrintAmount<'_, '_> {
     fn fmt(&self, f: &mut std::fmt::Formatter<'_>) -> std::fmt::Result {
-        let vs = &self.0.values;
+        // Sorts by the commodity name, as HashMap iteration order differs on every run.
+        let mut vs: Vec<(&Commodity<'_>, &Decimal)> = self.0.values.iter().collect();
+        vs.sort_unstable_by_key(|(c, _)| c.as_str());
         match vs.len() {
-            0 | 1 => match vs.iter().next() {
+            0 | 1 => match vs.first() {
                 Some((c, v)) => write!(f, "{} {}", v, c.as_str()),
                 None => write!(f, "0"),
             },
